@@ -277,28 +277,36 @@ Definition elem_byte_ok (b : byte) : bool :=
 Definition elem_ok (t : bytes) : bool :=
   match t with [] => false | _ => forallb elem_byte_ok t end.
 
-Fixpoint dom_value (v : value) {struct v} : bool :=
+(* a predicate on every key and every leaf value of an attribute tree, at every depth *)
+Fixpoint tree_all (pk : bytes -> bool) (pv : value -> bool) (v : value) {struct v} : bool :=
+  match v with
+  | VGroup items =>
+      (fix go (l : list attr) : bool :=
+         match l with
+         | [] => true
+         | ANil :: t => go t
+         | A k x :: t => pk k && tree_all pk pv x && go t
+         end) items
+  | leaf => pv leaf
+  end.
+Fixpoint attrs_all (pk : bytes -> bool) (pv : value -> bool) (l : list attr) : bool :=
+  match l with
+  | [] => true
+  | ANil :: t => attrs_all pk pv t
+  | A k x :: t => pk k && tree_all pk pv x && attrs_all pk pv t
+  end.
+
+Definition dom_leaf (v : value) : bool :=
   match v with
   | VFloat t => bare_ok t
   | VComplex t => bare_ok t
   | VTime t => qtext_ok t
   | VFloats l => forallb elem_ok l
   | VTimes l => forallb qtext_ok l
-  | VGroup items =>
-      (fix go (l : list attr) : bool :=
-         match l with
-         | [] => true
-         | ANil :: t => go t
-         | A k x :: t => legal_key k && dom_value x && go t
-         end) items
   | _ => true
   end.
-Fixpoint dom_attrs (l : list attr) : bool :=
-  match l with
-  | [] => true
-  | ANil :: t => dom_attrs t
-  | A k x :: t => legal_key k && dom_value x && dom_attrs t
-  end.
+Definition dom_value : value -> bool := tree_all legal_key dom_leaf.
+Definition dom_attrs : list attr -> bool := attrs_all legal_key dom_leaf.
 
 (* a blank Print (severity Always, message empty or white space only) is by design
    delivered as one bare line feed (property C02): it has no pairs and is outside
@@ -312,27 +320,16 @@ Definition lf_domain (c : ecfg) (msg : bytes) (attrs : list attr) : bool :=
    control bytes; blanks, '=' and quotes in keys cannot split a line *)
 Definition clean_byte (b : byte) : bool := (32 <=? bz b) && negb (bz b =? 127).
 Definition clean_text (t : bytes) : bool := forallb clean_byte t.
-Fixpoint clean_value (v : value) {struct v} : bool :=
+Definition clean_leaf (v : value) : bool :=
   match v with
   | VFloat t => clean_text t
   | VComplex t => clean_text t
   | VTime t => clean_text t
   | VFloats l => forallb clean_text l
   | VTimes l => forallb clean_text l
-  | VGroup items =>
-      (fix go (l : list attr) : bool :=
-         match l with
-         | [] => true
-         | ANil :: t => go t
-         | A k x :: t => clean_text k && clean_value x && go t
-         end) items
   | _ => true
   end.
-Fixpoint clean_attrs (l : list attr) : bool :=
-  match l with
-  | [] => true
-  | ANil :: t => clean_attrs t
-  | A k x :: t => clean_text k && clean_value x && clean_attrs t
-  end.
+Definition clean_value : value -> bool := tree_all clean_text clean_leaf.
+Definition clean_attrs : list attr -> bool := attrs_all clean_text clean_leaf.
 Definition lf_clean_domain (c : ecfg) (attrs : list attr) : bool :=
   clean_text (e_ts c) && clean_attrs attrs.
